@@ -78,8 +78,13 @@ func (mv *MessageView) SkipBodyUnlessContentType(cts ...string) {
 func (mv *MessageView) SnapshotRequest(req *http.Request) error {
 	buf := new(bytes.Buffer)
 
+	target := req.URL.String()
+	if req.Method == "CONNECT" && req.URL.Host != "" {
+		// The target of a CONNECT is the authority alone.
+		target = req.URL.Host
+	}
 	fmt.Fprintf(buf, "%s %s HTTP/%d.%d\r\n", req.Method,
-		req.URL, req.ProtoMajor, req.ProtoMinor)
+		target, req.ProtoMajor, req.ProtoMinor)
 
 	if req.Host != "" {
 		fmt.Fprintf(buf, "Host: %s\r\n", req.Host)
